@@ -3,7 +3,9 @@
    behaviour (true) or the pinned one (false), kept for the refutations:
    bounded  - the wait for the queues is conditional on being connected and bounded (20 s);
    always   - devices are shut down also when not connected;
-   separate - mixers and thermostats are shut down separately (not merged by index). *)
+   separate - mixers and thermostats are shut down separately (not merged by index);
+   cancel_all - TaskManager.cancel_tasks() cancels every registered task (the pinned all() over a generator stops
+              at the first task whose cancel() returns False). *)
 From Coq Require Import NArith List Bool Arith.
 From PV Require Import Generated.Tables.
 Import ListNotations.
@@ -30,7 +32,18 @@ Definition drain_bound : N := reader_timeout + writer_timeout.   (* 20 s *)
 
 Definition sum_tasks (l : list (nat * nat)) : nat := fold_left (fun a p => Nat.add a (snd p)) l 0%nat.
 
-Definition close (bounded always separate : bool) (s : cstate) : cresult :=
+(* TaskManager.cancel_tasks over the registered tasks in the order the set is walked (true = still running; a
+   finished task stays registered until its done callback has run).  Result: which of them still run afterwards. *)
+Fixpoint cancel_tasks (cancel_all : bool) (walk : list bool) : list bool :=
+  match walk with
+  | [] => []
+  | true :: r => false :: cancel_tasks cancel_all r                       (* cancel() returned True *)
+  | false :: r => false :: (if cancel_all then cancel_tasks cancel_all r else r)   (* cancel() returned False *)
+  end.
+Definition running (l : list bool) : nat := length (filter (fun b => b) l).
+
+(* walk = the connection's registered tasks (reconnect attempts) in the order close() meets them *)
+Definition close (bounded always separate cancel_all : bool) (walk : list bool) (s : cstate) : cresult :=
   let idle := Nat.eqb (s_queued s) 0 && Nat.eqb (s_unread s) 0 in
   let waits := if bounded then s_connected s && negb idle else negb idle in
   let drains := s_connected s && s_talking s in        (* a live producer with a talking controller empties the queues *)
@@ -40,5 +53,7 @@ Definition close (bounded always separate : bool) (s : cstate) : cresult :=
   let hidden := if separate then 0%nat
                 else sum_tasks (filter (fun m => existsb (fun t => Nat.eqb (fst t) (fst m)) (s_thermostats s)) (s_mixers s)) in
   mkCR returns seconds
-       (if returns then (if shut then hidden else Nat.add (s_dev_tasks s) (Nat.add (sum_tasks (s_mixers s)) (sum_tasks (s_thermostats s)))) else 0%nat)
+       (if returns then Nat.add (running (cancel_tasks cancel_all walk))
+                                (if shut then hidden else Nat.add (s_dev_tasks s) (Nat.add (sum_tasks (s_mixers s)) (sum_tasks (s_thermostats s))))
+        else 0%nat)
        true.
